@@ -20,11 +20,14 @@ theorem fixes_present : Cfg.current = Cfg.fixed := by decide
 
 /-- **C15 (partial)**: for EVERY history — creates, overwrites, duplicate values, removals, deletes,
     label removals, index creation at any point (before or after the data), compactions, reopens —
-    that stays outside the two known triggers, and every equality-lookup query (any labels, any
+    that stays outside the known triggers (`_hS` excludes index keys that do not fit a B-tree cell:
+    the code panics there, the model has no such path, so the hypothesis is not used by the proof),
+    and every equality-lookup query (any labels, any
     number of properties, any value kind), the rows with the indexes equal the rows without, in
     the same order.  Induction over the history with the index-content invariant `Inv`. -/
 theorem C15_partial (h : List Op) (hwf : WF h = true)
-    (hD : trigNonFirstLabel h = false) (hF : trigRemCompact h = false) :
+    (hD : trigNonFirstLabel h = false) (hF : trigRemCompact h = false)
+    (_hS : trigOversizedKey h = false) :
     Transparent Cfg.current h := by
   rw [fixes_present]; exact transparent_of_clean h hwf hD hF
 
@@ -78,7 +81,8 @@ def hClean : List Op := [
   .commit [.node (some lA), .set 5 kp sa, .set 5 kq one, .labelAdd 5 lA],
   .index lA kq, .reopen false ]
 
-example : WF hClean = true ∧ trigNonFirstLabel hClean = false ∧ trigRemCompact hClean = false := by
+example : WF hClean = true ∧ trigNonFirstLabel hClean = false ∧ trigRemCompact hClean = false ∧
+    trigOversizedKey hClean = false := by
   decide +kernel
 
 /-- the seek really answers from the index there.  Before the compaction the deleted node 1 and the
@@ -187,9 +191,9 @@ theorem counterexample_dup_delete_miss :
 /-- with all four repairs the same four histories are transparent (they are clean) -/
 example : Transparent Cfg.current hLate ∧ Transparent Cfg.current hDeleted ∧
     Transparent Cfg.current hDup ∧ Transparent Cfg.current hIntFloat :=
-  ⟨C15_partial _ (by decide +kernel) (by decide +kernel) (by decide +kernel),
-   C15_partial _ (by decide +kernel) (by decide +kernel) (by decide +kernel),
-   C15_partial _ (by decide +kernel) (by decide +kernel) (by decide +kernel),
-   C15_partial _ (by decide +kernel) (by decide +kernel) (by decide +kernel)⟩
+  ⟨C15_partial _ (by decide +kernel) (by decide +kernel) (by decide +kernel) (by decide +kernel),
+   C15_partial _ (by decide +kernel) (by decide +kernel) (by decide +kernel) (by decide +kernel),
+   C15_partial _ (by decide +kernel) (by decide +kernel) (by decide +kernel) (by decide +kernel),
+   C15_partial _ (by decide +kernel) (by decide +kernel) (by decide +kernel) (by decide +kernel)⟩
 
 end Nervus.Props.C15
